@@ -17,7 +17,7 @@
    function / the request handler / the path (the as-built defects; empty in the intended design).          *)
 EXTENDS Naturals, Sequences, FiniteSets, TLC
 
-CONSTANTS Client, SkipBefore, SkipHandler, SkipPath, MaxOps
+CONSTANTS Client, SkipBefore, SkipHandler, SkipPath, MaxOps, LateSid
 
 Kinds == IF Client = "streamable" THEN {"request", "notification", "stream", "answer", "delete"}
          ELSE {"connect", "request", "notification", "answer"}
@@ -26,13 +26,14 @@ Ops == IF Client = "streamable" THEN {"initialize", "call", "notify", "serverask
        ELSE {"initialize", "call", "notify", "serverasks"}
 
 VARIABLES hdr, before, errAt, handler, path, getsse,     \* the configuration (fixed per behaviour); getsse: the listening stream is enabled
+          latesid,     \* the server issues the session id not with the handshake but with the answer to the first later request
           sess,        \* a session id has been issued
           inited,      \* the handshake succeeded
           stream,      \* the background stream is up (server requests can arrive)
           nops, over,  \* history bound; over = the history has ended (terminate, or a failed handshake)
           wire, res    \* output of the last operation
-vars == <<hdr, before, errAt, handler, path, getsse, sess, inited, stream, nops, over, wire, res>>
-cfg == <<hdr, before, errAt, handler, path, getsse>>
+vars == <<hdr, before, errAt, handler, path, getsse, latesid, sess, inited, stream, nops, over, wire, res>>
+cfg == <<hdr, before, errAt, handler, path, getsse, latesid>>
 
 Fails(k) == before = "err" /\ errAt = k
 Rec(k, s) == [kind |-> k,
@@ -48,6 +49,7 @@ Put(k, s) == IF Fails(k) THEN {} ELSE {Rec(k, s)}
 Init == /\ hdr \in BOOLEAN /\ before \in {"none", "ok", "err"} /\ handler \in BOOLEAN
         /\ path \in (IF Client = "streamable" THEN BOOLEAN ELSE {FALSE})
         /\ getsse \in (IF Client = "streamable" THEN BOOLEAN ELSE {TRUE})
+        /\ latesid \in (IF Client = "streamable" /\ LateSid THEN BOOLEAN ELSE {FALSE})
         /\ errAt \in (IF before = "err" THEN Kinds ELSE {"-"})
         /\ sess = FALSE /\ inited = FALSE /\ stream = FALSE /\ nops = 0 /\ over = FALSE /\ wire = {} /\ res = "-"
 
@@ -58,21 +60,24 @@ Initialize ==
          conOK == Client # "legacy" \/ ~Fails("connect")
          r == IF conOK THEN Put("request", Client = "legacy") ELSE {}
          reqOK == conOK /\ ~Fails("request")
-         n == IF reqOK THEN Put("notification", TRUE) ELSE {}
+         n == IF reqOK THEN Put("notification", ~latesid) ELSE {}
          ok == reqOK /\ ~Fails("notification")
-         g == IF ok /\ Client = "streamable" /\ getsse THEN Put("stream", TRUE) ELSE {}
+         \* without a session id from the handshake the client takes the server for a stateless one: no listening stream
+         g == IF ok /\ Client = "streamable" /\ getsse /\ ~latesid THEN Put("stream", TRUE) ELSE {}
      IN /\ wire' = c \cup r \cup n \cup g
         /\ res' = IF ok THEN "ok" ELSE "err"
         /\ inited' = ok /\ over' = ~ok
-        /\ sess' = reqOK
-        /\ stream' = (ok /\ (IF Client = "streamable" THEN getsse /\ ~Fails("stream") ELSE TRUE))
+        /\ sess' = (reqOK /\ ~latesid)
+        /\ stream' = (ok /\ ~latesid /\ (IF Client = "streamable" THEN getsse /\ ~Fails("stream") ELSE TRUE))
   /\ nops' = nops + 1 /\ UNCHANGED cfg
 
+\* a request carries the session id once one has been issued; its answer may be what issues it (latesid)
 Call == /\ inited /\ ~over /\ nops < MaxOps
-        /\ wire' = Put("request", TRUE) /\ res' = IF Fails("request") THEN "err" ELSE "ok"
-        /\ nops' = nops + 1 /\ UNCHANGED <<cfg, sess, inited, stream, over>>
+        /\ wire' = Put("request", sess) /\ res' = IF Fails("request") THEN "err" ELSE "ok"
+        /\ sess' = (sess \/ ~Fails("request"))
+        /\ nops' = nops + 1 /\ UNCHANGED <<cfg, inited, stream, over>>
 Notify == /\ inited /\ ~over /\ nops < MaxOps
-          /\ wire' = Put("notification", TRUE) /\ res' = IF Fails("notification") THEN "err" ELSE "ok"
+          /\ wire' = Put("notification", sess) /\ res' = IF Fails("notification") THEN "err" ELSE "ok"
           /\ nops' = nops + 1 /\ UNCHANGED <<cfg, sess, inited, stream, over>>
 \* the server issues a request on the background stream; the client answers it with a POST of its own
 ServerAsks == /\ inited /\ ~over /\ stream /\ nops < MaxOps
@@ -83,10 +88,10 @@ ServerAsksOther == /\ inited /\ ~over /\ stream /\ nops < MaxOps
                    /\ wire' = Put("answer", TRUE) /\ res' = IF Fails("answer") THEN "noanswer" ELSE "ok"
                    /\ nops' = nops + 1 /\ UNCHANGED <<cfg, sess, inited, stream, over>>
 \* the server refuses the DELETE: the session lives on and later requests still carry its id
-TerminateRefused == /\ Client = "streamable" /\ inited /\ ~over /\ nops < MaxOps
+TerminateRefused == /\ Client = "streamable" /\ inited /\ ~over /\ nops < MaxOps /\ sess
                     /\ wire' = Put("delete", TRUE) /\ res' = IF Fails("delete") THEN "err" ELSE "refused"
                     /\ nops' = nops + 1 /\ UNCHANGED <<cfg, sess, inited, stream, over>>
-Terminate == /\ Client = "streamable" /\ inited /\ ~over
+Terminate == /\ Client = "streamable" /\ inited /\ ~over /\ sess      \* without a session there is nothing to terminate
              /\ wire' = Put("delete", TRUE) /\ res' = IF Fails("delete") THEN "err" ELSE "ok"
              /\ over' = TRUE /\ nops' = nops + 1 /\ UNCHANGED <<cfg, sess, inited, stream>>
 
@@ -102,5 +107,5 @@ Customised ==
 NothingSentOnError == before = "err" => \A r \in wire : r.kind # errAt
 \* once a session id has been issued every request carries it (inited is read BEFORE the step: the handshake's own
 \* first request cannot carry what it is about to obtain)
-SessionCarried == [][\A r \in wire' : (r.kind \in {"stream", "answer", "delete"} \/ inited) => r.sid]_vars
+SessionCarried == [][\A r \in wire' : (r.kind \in {"stream", "answer", "delete"} \/ (inited /\ sess)) => r.sid]_vars
 =============================================================================
